@@ -82,6 +82,10 @@ def _add_markdown_hard_break_handling(base_wrapper: LineWrapper) -> LineWrapper:
                 # word needs the same escaping as a word that starts a wrapped line.
                 segment = _escape_segment_start(segment)
             wrapped_segment = base_wrapper(segment, cur_initial_indent, subsequent_indent)
+            if not wrapped_segment.strip():
+                # An empty segment (a hard break at the very start, or two in a row) still
+                # needs its indent: the first one carries the list marker or quote prefix.
+                wrapped_segment = cur_initial_indent.rstrip() if is_last else cur_initial_indent
             if is_last:
                 wrapped_segments.append(wrapped_segment)
             else:
